@@ -49,6 +49,17 @@ type op interface {
 	desc() string
 }
 
+// objsOf: the shared objects an operation touches (for the happens-before state key). Operations that do not say are
+// attributed to one global object per family, which is conservative (everything in the family is ordered).
+type objser interface{ objs(sub int) []string }
+
+func objsOf(o op, sub int) []string {
+	if x, ok := o.(objser); ok {
+		return x.objs(sub)
+	}
+	return nil
+}
+
 type Thread struct {
 	ID       int
 	Name     string
@@ -63,6 +74,7 @@ type Thread struct {
 	PanicStack string
 	started  bool
 	fn       func()
+	hb       uint64 // hash chain of this thread's events (each folds in the history of the objects it touched)
 }
 
 type Sched struct {
@@ -77,6 +89,8 @@ type Sched struct {
 	KeepTrace bool
 	objSeq  int
 	wg      sync.WaitGroup
+	objHB   map[string]uint64
+	Salt    uint64 // mixed into the state key (generation / persisted-state digest)
 }
 
 // the scheduler that owns the process (one execution at a time) and the thread currently running under it
@@ -86,7 +100,7 @@ var (
 )
 
 func New(c Chooser) *Sched {
-	s := &Sched{back: make(chan struct{}), chooser: c, MaxSteps: 20000}
+	s := &Sched{back: make(chan struct{}), chooser: c, MaxSteps: 20000, objHB: map[string]uint64{}}
 	cur = s
 	running = nil
 	return s
@@ -140,7 +154,8 @@ func Go(fn func()) {
 		return
 	}
 	parent := running
-	s.Spawn(fmt.Sprintf("%s/go%d", parent.Name, len(s.threads)), parent.Daemon, fn)
+	child := s.Spawn(fmt.Sprintf("%s/go%d", parent.Name, len(s.threads)), parent.Daemon, fn)
+	child.hb = mix(parent.hb, strHash("spawn"))
 }
 
 // GoDaemon spawns a daemon thread from harness or instrumented code.
@@ -243,6 +258,7 @@ func (s *Sched) Run() Reason {
 		}
 		o := t.pending
 		t.pending = nil
+		s.event(t, o.desc(), a.Sub, objsOf(o, a.Sub))
 		o.fire(a.Sub)
 		s.last = t
 		running = t
@@ -304,6 +320,7 @@ type simpleOp struct {
 	d    string
 	n    int
 	got  int
+	obj  string
 }
 
 func (o *simpleOp) subs() []int {
@@ -315,6 +332,15 @@ func (o *simpleOp) subs() []int {
 }
 func (o *simpleOp) fire(sub int) { o.got = sub }
 func (o *simpleOp) desc() string { return o.d }
+func (o *simpleOp) objs(int) []string {
+	if o.obj != "" {
+		return []string{o.obj}
+	}
+	if len(o.d) > 6 && o.d[:6] == "yield " {
+		return []string{"mem"} // statement-level yields: unsynchronised memory, one conservative object
+	}
+	return []string{"harness"} // store / publisher / harness bookkeeping points
+}
 
 // Point is an always-enabled scheduling point (harness store / monitor operations).
 func Point(desc string) {
@@ -329,6 +355,14 @@ func Choice(desc string, n int) int {
 	o := &simpleOp{d: desc, n: n}
 	park(o)
 	return o.got
+}
+
+// yieldObj: a scheduling point before an access to a named shim object (sync.Map, atomic).
+func yieldObj(what, obj string) {
+	if running == nil {
+		return
+	}
+	park(&simpleOp{d: "yield " + what + " " + obj, n: 1, obj: obj})
 }
 
 // Yield is a plain scheduling point (statement granularity / spin loops).
@@ -361,4 +395,69 @@ func sortSlice[K interface {
 			s[j], s[j-1] = s[j-1], s[j]
 		}
 	}
+}
+
+
+// ---------------------------------------------------------------------------------------------
+// happens-before state key: two schedules that are equivalent up to reordering independent operations give every
+// thread the same event chain, hence the same key.
+
+func mix(h uint64, vals ...uint64) uint64 {
+	for _, v := range vals {
+		h ^= v + 0x9e3779b97f4a7c15 + (h << 6) + (h >> 2)
+		h *= 0x100000001b3
+	}
+	return h
+}
+
+func strHash(s string) uint64 {
+	h := uint64(14695981039346656037)
+	for i := 0; i < len(s); i++ {
+		h ^= uint64(s[i])
+		h *= 1099511628211
+	}
+	return h
+}
+
+func (s *Sched) event(t *Thread, desc string, sub int, objs []string) {
+	e := mix(t.hb, strHash(desc), uint64(sub)+1)
+	for _, o := range objs {
+		e = mix(e, s.objHB[o], strHash(o))
+	}
+	t.hb = e
+	for _, o := range objs {
+		s.objHB[o] = e
+	}
+}
+
+// touch: a non-scheduling effect of the running thread on a shared object (unlock, close, counter change).
+func touch(obj string) {
+	s, t := cur, running
+	if s == nil || t == nil {
+		return
+	}
+	s.objHB[obj] = mix(s.objHB[obj], t.hb, strHash("touch"))
+}
+
+// StateKey identifies the global state up to reordering of independent operations.
+func (s *Sched) StateKey() uint64 {
+	k := mix(s.Salt, uint64(len(s.threads)))
+	for _, t := range s.threads {
+		f := uint64(0)
+		if t.finished {
+			f = 1
+		}
+		k = mix(k, uint64(t.ID), t.hb, f)
+	}
+	// the default (free) continuation depends on which thread ran last, so under a deviation bound two states only
+	// have the same futures if that is equal too
+	if s.last != nil {
+		k = mix(k, uint64(s.last.ID)+1)
+	}
+	return k
+}
+
+// PointOn is Point with an explicit shared object (e.g. "real" before cancelling a context that instrumented code selects on).
+func PointOn(desc, obj string) {
+	park(&simpleOp{d: desc, n: 1, obj: obj})
 }
